@@ -308,3 +308,199 @@ Print Assumptions C10_model_is_source_cli_evaluate_model.
 
 Example C10_example_cli_chain_ids : Cli.chain_ids_of (fun n : Z => n) [2; 0; 3]%Z = [0; 0; 2; 2; 2]%Z.
 Proof. vm_compute. reflexivity. Qed.
+
+(* ---- what a sample IS: the dict methods of the two shipped sample classes, and Theta.equals ----
+   Model/Thetas.v keeps a sample opaque: a pair (private, shared) of the two dicts its class exports; the ThetaHolder links
+   above took `t.private_parameters_dict()` / `t.shared_parameters_dict()` / `C.from_dicts(...)` as PRIMITIVES (fst / snd / the pair).
+   Here these methods themselves are re-translated from /repo on every run (harness/src_functions.py C10D_*, Generated/SrcThetaDicts.v)
+   and linked to Model/ThetaDicts.v: a parameter dict is an insertion-ordered list (key, value) with string keys (a key = the list
+   of its code points; `key "W"` is that list) and values of four kinds (PArr a float ndarray, PNum a float scalar, PInts / PNums
+   the exported id / value columns); A (arrays) and F (floats) are abstract, every theorem holds for ALL of them.  Error tags:
+   93 TypeError of cls( **d), 94 KeyError, 95 = a dict value of another kind than the class writes under that key (outside the
+   model: Python does not check; no dict obtained from a sample reaches it). *)
+From Batchie Require Lib.PyRt Model.ThetaDicts Generated.SrcThetaDicts Proofs.C10SourceDicts.
+Import Lib.PyRt Model.ThetaDicts Generated.SrcThetaDicts.
+From Coq Require String.
+Import String.StringSyntax.
+Local Open Scope string_scope.
+Open Scope Z_scope.
+
+(* SparseDrugComboMCMCSample.private_parameters_dict (`return self.__dict__`: the dataclass fields in declaration order - the
+   translator reads the field list from the class body): W, W0, V2, V1, V0 as arrays, alpha, precision as scalars, each under its own name *)
+Theorem C10_model_is_source_sc_private_parameters_dict : forall (A F : Type) (t : sc_sample A F),
+  src_sc_private_parameters_dict A F t = Ok (sc_private t).
+Proof. exact C10SourceDicts.src_sc_private_is_model. Qed.
+Print Assumptions C10_model_is_source_sc_private_parameters_dict.
+
+(* Theta.shared_parameters_dict, which SparseDrugComboMCMCSample inherits (checked: it defines none): the empty dict, for an object of any class *)
+Theorem C10_model_is_source_theta_shared_parameters_dict : forall (A F T : Type) (t : T),
+  src_theta_shared_parameters_dict A F T t = Ok (no_shared A F).
+Proof. exact C10SourceDicts.src_theta_shared_is_model. Qed.
+Print Assumptions C10_model_is_source_theta_shared_parameters_dict.
+
+(* SparseDrugComboMCMCSample.from_dicts (`cls( **private_params)`): exactly the seven field names, in any order, each value of its
+   field's kind; shared_params is not read *)
+Theorem C10_model_is_source_sc_from_dicts : forall (A F : Type) (p s : pdict A F),
+  src_sc_from_dicts A F p s = sc_from_dicts A F p s.
+Proof. exact C10SourceDicts.src_sc_from_dicts_is_model. Qed.
+Print Assumptions C10_model_is_source_sc_from_dicts.
+
+Theorem C10_model_is_source_in_private_parameters_dict : forall (A F : Type) (t : in_sample A F),
+  src_in_private_parameters_dict A F t = Ok (in_private t).
+Proof. exact C10SourceDicts.src_in_private_is_model. Qed.
+Print Assumptions C10_model_is_source_in_private_parameters_dict.
+
+(* SparseDrugComboInteractionMCMCSample.shared_parameters_dict: the single-effect table exported as three parallel arrays - sample
+   ids, treatment ids, values - rows in the dict's iteration order *)
+Theorem C10_model_is_source_in_shared_parameters_dict : forall (A F : Type) (t : in_sample A F),
+  src_in_shared_parameters_dict A F t = Ok (in_shared t).
+Proof. exact C10SourceDicts.src_in_shared_is_model. Qed.
+Print Assumptions C10_model_is_source_in_shared_parameters_dict.
+
+(* ... and from_dicts: dict(zip(zip(keys1, keys2), vals)) and cls(single_effect_lookup=..., **private_params) *)
+Theorem C10_model_is_source_in_from_dicts : forall (A F : Type) (p s : pdict A F),
+  src_in_from_dicts A F p s = in_from_dicts A F p s.
+Proof. exact C10SourceDicts.src_in_from_dicts_is_model. Qed.
+Print Assumptions C10_model_is_source_in_from_dicts.
+
+(* from_dicts(private_parameters_dict(t), shared_parameters_dict(t)) = t, through the TRANSLATED methods, for every sample *)
+Theorem C10_source_sc_roundtrip : forall (A F : Type) (t : sc_sample A F),
+  (dor p <- src_sc_private_parameters_dict A F t;
+   dor s <- src_theta_shared_parameters_dict A F (sc_sample A F) t;
+   src_sc_from_dicts A F p s) = Ok t.
+Proof. exact C10SourceDicts.src_sc_roundtrip. Qed.
+Print Assumptions C10_source_sc_roundtrip.
+
+(* the interaction class: for every sample whose table has distinct keys - a fact about every Python dict *)
+Theorem C10_source_in_roundtrip : forall (A F : Type) (t : in_sample A F),
+  NoDup (map fst (in_lookup t)) ->
+  (dor p <- src_in_private_parameters_dict A F t;
+   dor s <- src_in_shared_parameters_dict A F t;
+   src_in_from_dicts A F p s) = Ok t.
+Proof. exact C10SourceDicts.src_in_roundtrip. Qed.
+Print Assumptions C10_source_in_roundtrip.
+
+(* the empty table: three empty columns out, the empty dict back *)
+Theorem C10_source_in_roundtrip_empty_table : forall (A F : Type) (w v2 : A) (pr : F),
+  let t := {| in_W := w; in_V2 := v2; in_precision := pr; in_lookup := [] |} in
+  in_shared t = [(key "single_effect_lookup_keys1", PInts []); (key "single_effect_lookup_keys2", PInts []);
+                 (key "single_effect_lookup_vals", PNums [])]
+  /\ in_from_dicts A F (in_private t) (in_shared t) = Ok t.
+Proof. exact C10SourceDicts.in_roundtrip_empty_table. Qed.
+Print Assumptions C10_source_in_roundtrip_empty_table.
+
+(* the file does not keep the order of a dict's entries (reading a group gives the attributes, then the datasets by name):
+   from_dicts returns the sample from ANY dicts that are the same finite maps as its two dicts ... *)
+Theorem C10_from_dicts_any_entry_order : forall (A F : Type),
+  (forall (t : sc_sample A F) (p s : pdict A F), dict_equiv A F p (sc_private t) -> sc_from_dicts A F p s = Ok t) /\
+  (forall (t : in_sample A F) (p s : pdict A F), NoDup (map fst (in_lookup t)) ->
+     dict_equiv A F p (in_private t) -> dict_equiv A F s (in_shared t) -> in_from_dicts A F p s = Ok t).
+Proof. intros A F. split; [exact (C10SourceDicts.sc_from_dicts_of_equiv A F) | exact (C10SourceDicts.in_from_dicts_of_equiv A F)]. Qed.
+Print Assumptions C10_from_dicts_any_entry_order.
+
+(* ... and only from those: whatever dict from_dicts accepts is (as a finite map) the private dict of the sample it returns *)
+Theorem C10_sc_from_dicts_only_of_private : forall (A F : Type) (p s : pdict A F) (t : sc_sample A F),
+  sc_from_dicts A F p s = Ok t -> dict_equiv A F p (sc_private t).
+Proof. exact C10SourceDicts.sc_from_dicts_only_of_private. Qed.
+Print Assumptions C10_sc_from_dicts_only_of_private.
+
+(* consistency with the ThetaHolder links: with P = S = pdict and the representation sample_theta t = (private dict, shared dict),
+   the meanings C10_SAVE / C10_LOAD gave to the three calls - fst t, snd t, the pair - are what the translated methods of the
+   sample's class compute (src_private_of / src_shared_of / src_from_dicts_as dispatch on the class of t, Proofs/C10SourceDicts.v) *)
+Theorem C10_source_save_primitives_are_translations : forall (A F : Type) (t : sample A F),
+  C10SourceDicts.src_private_of A F t = Ok (fst (sample_theta A F t)) /\
+  C10SourceDicts.src_shared_of A F t = Ok (snd (sample_theta A F t)).
+Proof.
+  intros A F t. split; [exact (C10SourceDicts.save_prim_private_is_source A F t) | exact (C10SourceDicts.save_prim_shared_is_source A F t)].
+Qed.
+Print Assumptions C10_source_save_primitives_are_translations.
+
+Theorem C10_source_load_primitive_is_translation : forall (A F : Type) (t : sample A F),
+  C10SourceDicts.table_ok A F t ->
+  C10SourceDicts.src_from_dicts_as A F t (fst (sample_theta A F t)) (snd (sample_theta A F t)) = Ok t.
+Proof. exact C10SourceDicts.load_prim_from_dicts_is_source. Qed.
+Print Assumptions C10_source_load_primitive_is_translation.
+
+(* end to end through translated code only: a non-empty collection within its declared size whose samples share their shared
+   parameters, written by the translated save_h5, read back as a file, loaded by the translated load_h5, every loaded pair turned
+   into a sample by the translated from_dicts of its class: the declared size and the samples, in order *)
+Theorem C10_source_samples_persist : forall (A F : Type) (n : Z) (ts : list (sample A F)),
+  ts <> [] -> Z.of_nat (length ts) <= n ->
+  (forall t u, In t ts -> In u ts -> sample_shared A F t = sample_shared A F u) ->
+  (forall t, In t ts -> C10SourceDicts.table_ok A F t) ->
+  (dor w <- src_save_h5 (pdict A F) (pdict A F) (C10SourceDicts.holder_of A F n ts);
+   dor f <- h5_close w;
+   dor o <- src_load_h5 (pdict A F) (pdict A F) f;
+   dor back <- res_map_all (fun tt' : sample A F * theta (pdict A F) (pdict A F) =>
+                              C10SourceDicts.src_from_dicts_as A F (fst tt') (fst (snd tt')) (snd (snd tt')))
+                           (combine ts (attr_thetas o));
+   Ok (attr_n_thetas o, back))
+  = Ok (n, ts).
+Proof. exact C10SourceDicts.src_samples_persist. Qed.
+Print Assumptions C10_source_samples_persist.
+
+(* Theta.equals (the class test, the two pairs of dicts, the loops over d1.items() with `k not in d2` and the three comparison
+   branches, the early returns), for ANY class of samples given by its class test and its two dict methods, any array / float
+   comparison functions aeqb (np.array_equal) / feqb (==) *)
+Theorem C10_model_is_source_theta_equals :
+  forall (A F : Type) (aeqb : A -> A -> bool) (feqb : F -> F -> bool)
+         (T : Type) (same : T -> T -> bool) (priv shar : T -> result (pdict A F)) (a b : T),
+  src_theta_equals A F aeqb feqb T same priv shar a b = theta_equals A F aeqb feqb same priv shar a b.
+Proof. exact C10SourceDicts.src_theta_equals_is_model. Qed.
+Print Assumptions C10_model_is_source_theta_equals.
+
+(* on the shipped samples, dispatching to the translated dict methods: the model equality - field by field, the tables row by row
+   in iteration order, false across classes; never an exception *)
+Theorem C10_source_equals_is_sample_eqb :
+  forall (A F : Type) (aeqb : A -> A -> bool) (feqb : F -> F -> bool) (a b : sample A F),
+  src_theta_equals A F aeqb feqb (sample A F) (same_class A F) (C10SourceDicts.src_private_of A F) (C10SourceDicts.src_shared_of A F) a b
+  = Ok (sample_eqb A F aeqb feqb a b).
+Proof. exact C10SourceDicts.src_equals_is_sample_eqb. Qed.
+Print Assumptions C10_source_equals_is_sample_eqb.
+
+(* equals is true exactly when the two samples are of one class and their dict representations agree entry by entry: same
+   keys in the same order, arrays agreeing under aeqb, scalars and the value column under feqb, the id columns exactly *)
+Theorem C10_source_equals_true_iff_dicts_agree :
+  forall (A F : Type) (aeqb : A -> A -> bool) (feqb : F -> F -> bool) (a b : sample A F),
+  src_theta_equals A F aeqb feqb (sample A F) (same_class A F) (C10SourceDicts.src_private_of A F) (C10SourceDicts.src_shared_of A F) a b
+  = Ok true
+  <-> same_class A F a b = true
+      /\ pdict_agree A F aeqb feqb (sample_private A F a) (sample_private A F b)
+      /\ pdict_agree A F aeqb feqb (sample_shared A F a) (sample_shared A F b).
+Proof. exact C10SourceDicts.src_equals_true_iff_agree. Qed.
+Print Assumptions C10_source_equals_true_iff_dicts_agree.
+
+(* where == and np.array_equal decide equality of the values (NOT a fact about all inputs: it excludes NaN, which equals itself
+   under neither, and takes -0.0 and 0.0 as one value): equals is true exactly when the two samples have the same dict
+   representation *)
+Theorem C10_source_equals_true_iff_same_representation :
+  forall (A F : Type) (aeqb : A -> A -> bool) (feqb : F -> F -> bool),
+  (forall x y, aeqb x y = true <-> x = y) -> (forall x y, feqb x y = true <-> x = y) ->
+  forall a b : sample A F,
+  src_theta_equals A F aeqb feqb (sample A F) (same_class A F) (C10SourceDicts.src_private_of A F) (C10SourceDicts.src_shared_of A F) a b
+  = Ok true
+  <-> sample_theta A F a = sample_theta A F b.
+Proof. exact C10SourceDicts.src_equals_true_iff_same_representation. Qed.
+Print Assumptions C10_source_equals_true_iff_same_representation.
+
+(* non-vacuity: arrays and floats as integers *)
+Definition ex_in (v : Z) (tb : table Z) : sample Z Z := SInter {| in_W := 1; in_V2 := 2; in_precision := v; in_lookup := tb |}.
+Example C10_ex_shared_dict :
+  sample_shared Z Z (ex_in 5 [((0, 3), 70); ((1, -1), 10)])
+  = [(key "single_effect_lookup_keys1", PInts [0; 1]); (key "single_effect_lookup_keys2", PInts [3; -1]);
+     (key "single_effect_lookup_vals", PNums [70; 10])].
+Proof. vm_compute. reflexivity. Qed.
+Example C10_ex_equals :
+  let eq := src_theta_equals Z Z Z.eqb Z.eqb (sample Z Z) (same_class Z Z) (C10SourceDicts.src_private_of Z Z) (C10SourceDicts.src_shared_of Z Z) in
+  eq (ex_in 5 [((0, 3), 70)]) (ex_in 5 [((0, 3), 70)]) = Ok true /\
+  eq (ex_in 5 [((0, 3), 70)]) (ex_in 6 [((0, 3), 70)]) = Ok false /\
+  eq (ex_in 5 [((0, 3), 70)]) (ex_in 5 [((0, 3), 71)]) = Ok false /\
+  eq (ex_in 5 [((0, 3), 70); ((1, 3), 9)]) (ex_in 5 [((1, 3), 9); ((0, 3), 70)]) = Ok false /\
+  eq (ex_in 5 []) (SCombo {| sc_W := 1; sc_W0 := 1; sc_V2 := 2; sc_V1 := 1; sc_V0 := 1; sc_alpha := 1; sc_precision := 5 |}) = Ok false.
+Proof. vm_compute. repeat split; reflexivity. Qed.
+Example C10_ex_from_dicts_refuses :
+  sc_from_dicts Z Z [(key "W", PArr 1)] [] = Err 93 /\
+  in_from_dicts Z Z [(key "W", PArr 1); (key "V2", PArr 2); (key "precision", PNum 3); (key "alpha", PNum 4)]
+                    (sample_shared Z Z (ex_in 5 [])) = Err 93 /\
+  in_from_dicts Z Z [(key "W", PArr 1); (key "V2", PArr 2); (key "precision", PNum 3)] [] = Err 94.
+Proof. vm_compute. repeat split; reflexivity. Qed.
